@@ -51,6 +51,24 @@ int f(int a, int b, int c, int d) {
   return t1 + t2 + t3 + t4 + t5 + t6 + t7 + t8 + t9 + t10 + t11 + t12 + t13 + t14 + t15 + t16 + t17 + t18 + t19 + t20 + t21 + t22;
 }
 """)
+S("frame_then_pressure", "f", """
+int f(int *p, int b, int c, int d) {
+  int t[2]; t[0] = b; t[1] = b + 1; int q = t[b & 1];
+  int v0 = p[0], v1 = p[1], v2 = p[2], v3 = p[3];
+  int v4 = b + c, v5 = c - d, v6 = b ^ d, v7 = c + d, v8 = b - d;
+  p[0] = q;
+  return (v0 + v1 + v2 + v3 + v4 + v5 + v6 + v7 + v8) * (v0 ^ v1 ^ v2 ^ v3 ^ v4 ^ v5 ^ v6 ^ v7 ^ v8);
+}
+""")
+S("frame_then_pressure8", "f", """
+int tab[8];
+int f(int b) {
+  int t[2]; t[0] = b; t[1] = b + 1; int q = t[b & 1];
+  int v0 = tab[0]; int v1 = tab[1]; int v2 = tab[2]; int v3 = tab[3]; int v4 = tab[4]; int v5 = tab[5]; int v6 = tab[6]; int v7 = tab[7];
+  tab[0] = q;
+  return (v0 + v1 + v2 + v3 + v4 + v5 + v6 + v7) * (v0 ^ v1 ^ v2 ^ v3 ^ v4 ^ v5 ^ v6 ^ v7);
+}
+""")
 S("live_across_call", "f", """
 int ext1(int);
 int f(int a, int b, int c, int d) { int x = a * b; int y = c - d; int r = ext1(a); return r + x + y + b + c + d; }
